@@ -1,5 +1,5 @@
 #!/bin/bash
-# usage: tools/seed_iso.sh <seed-id> [tier] [crates...]
+# usage: tools/seed_iso.sh <seed-id> [tier]
 # Run the check(s) of a seeded change in ISOLATION: /repo is not touched. A scratch copy of /repo's
 # working tree (including uncommitted hooks) gets seeded/<id>/patch.diff applied; a scratch copy of
 # the harness (own target dir) has its path dependencies rewritten to that copy; the check runs with
@@ -9,13 +9,18 @@ cd "$(dirname "$0")/.."
 id="$1"; tier="${2:-quick}"
 d="$PWD/seeded/$id"
 [ -f "$d/patch.diff" ] || { echo "no $d/patch.diff"; exit 2; }
-iso="${ISO_ROOT:-/tmp/iso}/$id"
-rm -rf "$iso"; mkdir -p "$iso"
-# scratch copy of /repo's working tree without build output
-rsync -a --exclude target --exclude .git --exclude node_modules /repo/ "$iso/repo/"
-( cd "$iso/repo" && git init -q . >/dev/null 2>&1; git apply --whitespace=nowarn "$d/patch.diff" ) || { echo "patch does not apply"; rm -rf "$iso"; exit 2; }
-rsync -a --exclude target /verif/harness/ "$iso/harness/"
+# one persistent scratch root per ISO_ROOT (the cargo target directory inside it is reused by later
+# seeds, so only the first run pays for a full build); remove it with `rm -rf $ISO_ROOT` when done
+iso="${ISO_ROOT:-/tmp/iso}/cur"
+mkdir -p "$iso"
+# scratch copy of /repo's committed HEAD (never its working tree: other work may be in progress there)
+rm -rf "$iso/repo.new"; mkdir -p "$iso/repo.new"
+git -C /repo archive HEAD | tar -x -C "$iso/repo.new"
+mkdir -p "$iso/repo"; rsync -rlpgoD --delete --checksum "$iso/repo.new/" "$iso/repo/"; rm -rf "$iso/repo.new"
+( cd "$iso/repo" && patch -p1 -s --no-backup-if-mismatch < "$d/patch.diff" ) || { echo "patch does not apply"; exit 2; }
+rsync -rlpgoD --checksum --exclude target /verif/harness/ "$iso/harness/"
 find "$iso/harness" -name Cargo.toml -exec sed -i "s#\"/repo/#\"$iso/repo/#g" {} +
+rm -rf "$iso/work" "$iso/replays"
 export VERIF_HARNESS_DIR="$iso/harness" VERIF_WORK_DIR="$iso/work" VERIF_EVIDENCE_DIR="$iso/evidence" VERIF_REPLAYS_DIR="$iso/replays" VERIF_REPO_DIR="$iso/repo"
 mkdir -p "$VERIF_WORK_DIR" "$VERIF_EVIDENCE_DIR"
 props=$(python3 -c "import json; m=json.load(open('$d/meta.json')); p=m['property']; print(' '.join(p if isinstance(p,list) else [p]))")
@@ -28,6 +33,6 @@ for p in $props; do
   echo "exit=$rc"
   [ $rc -eq 1 ] || rc_all=1
 done
-[ "${KEEP:-0}" = 1 ] || rm -rf "$iso"
+rm -rf "$VERIF_WORK_DIR" "$VERIF_REPLAYS_DIR"
 [ $rc_all -eq 0 ] && echo "CAUGHT $id" || echo "MISSED $id"
 exit $rc_all
